@@ -24,9 +24,11 @@
 // last SetMode returned nil:
 //
 //	(0) SetMode == nil  =>  GetMode() == requested mode; nothing ever panics;
-//	(1) M read-only  =>  every modifying request fails; and, unless the failed
-//	    switch was heading to a writable mode, the shard directory (blob/, meta,
-//	    wc/) is byte-identical before and after the step's operations and sleeps;
+//	(1) M read-only  =>  every modifying request fails; and, unless a switch
+//	    heading to a writable mode failed since the last successful switch (its
+//	    already switched components, e.g. the write-cache flusher, are writable),
+//	    the shard directory (blob/, meta, wc/) is byte-identical before and after
+//	    the step's operations and sleeps;
 //	(2) M == READ_WRITE and lastOK  =>  Put / Get / Delete / MarkGarbage /
 //	    FlushWriteCache work; M == DEGRADED and lastOK => Put works;
 //	(3) lastOK (any mode)  =>  every acknowledged, not removed object is readable
@@ -229,7 +231,7 @@ func runCase(t *rapid.T, rec *ev.Recorder) {
 	}
 	name := func(o *obj) string { return fmt.Sprintf("c%d/o%d", o.spec.Cnr, o.spec.ID) }
 
-	lastOK, lastTarget := true, mode.ReadWrite
+	lastOK, lastTarget, writableDrift := true, mode.ReadWrite, false
 
 	// readable checks oracle (3) for one object
 	readable := func(o *obj, when string) {
@@ -416,6 +418,14 @@ func runCase(t *rapid.T, rec *ev.Recorder) {
 			fail("SetMode(%s) returned nil but GetMode() == %s", target, m)
 		}
 		lastOK, lastTarget = err == nil, target
+		switch {
+		case err == nil:
+			writableDrift = false
+		case !target.ReadOnly():
+			// components switched before the failing one are already writable
+			// (e.g. the write-cache flushes again) until a later switch succeeds
+			writableDrift = true
+		}
 		return err
 	}
 
@@ -454,7 +464,7 @@ func runCase(t *rapid.T, rec *ev.Recorder) {
 		}
 
 		m := sh.GetMode()
-		frozen := m.ReadOnly() && (lastOK || lastTarget.ReadOnly())
+		frozen := m.ReadOnly() && !writableDrift
 		var before []snap.Entry
 		if frozen {
 			synctest.Wait()
